@@ -241,6 +241,9 @@ func check(c *pbt.Case, r *pbt.R) {
 		if hop > 0 {
 			where = "after transfer"
 		}
+		if x.Error() != e.Error() {
+			r.Failf("the text of an error with hidden parts changes in transfer", "%q vs %q\nspec %s", x.Error(), e.Error(), c.Spec)
+		}
 		if x.Error() != xC.Error() || x.Error() != xB.Error() {
 			r.Failf("the text changes when the hidden error is replaced by a plain error with the same text ("+where+")", "%q vs %q\nspec %s", x.Error(), xB.Error(), c.Spec)
 		}
